@@ -1,27 +1,43 @@
 // C07 — Node crash recovery loses no logged write, never replays a persisted one.
 //
-// One real storage node per history in a child process: tsdb.Engine (1 database, 1-2 shards, 1-2 data families per
-// shard) + replica.WriteAheadLogManager with the real local replicator. Log entries are built like the broker builds
-// them (flat rows, routed by the real shard/family iterators, snappy chunk) and appended with Partition.WriteLog by 1-3
-// writers; replication is advanced step by step (replica.VerifReplicaStep); metadata, index and data flushes run in
-// the order of tsdb's doFlush while entries keep arriving - between the steps and at chosen file-system operations
-// inside a step; Partition.IsExpire drives log Sync/GC. The whole node directory (data, index and metadata stores,
-// sequence file, log pages) is one imgfs world: an image after every file-system operation of any store and after
-// every store into a log page.
+// One real storage node per history in a child process (TZ=UTC): tsdb.Engine (1 database, 1-2 shards, 1-2 data families
+// per shard) + replica.WriteAheadLogManager with the real local replicator (BuildReplicaForLeader(self, [self])). Log
+// entries are built like the broker builds them (flat rows, routed by the real shard/family iterators, snappy chunk)
+// and appended with Partition.WriteLog by 1-3 writers. The whole node directory (data, index and metadata stores,
+// dictionary sequence file, log pages) is one imgfs world: an image after every file-system operation of any store and
+// after every store into a log page (consumer-group acknowledgements included).
 //
-// Every image is recovered in another child process (engine load, WriteAheadLogManager.Recovery, local replicator,
-// replay until consumed = appended, flush) and checked:
+//	step histories      replication advanced with replica.VerifReplicaStep; flush cycles in the order of doFlush
+//	                    (metadata -> per shard index -> family data), about half of them through the real
+//	                    dataFlushChecker.doFlush (tsdb.VerifDoFlush), the others step by step with rows arriving between
+//	                    the steps; rows arrive at chosen file-system operations inside the steps (a new tag key / field
+//	                    while its schema table is closed, an entry for the family whose table is being written); a
+//	                    drain + an idle cycle followed by new names; data flushes started between - or concurrently
+//	                    with - the replicator's WriteRows and its CommitSequence; Partition.IsExpire (log Sync/GC)
+//	free histories      real replica loops, 3 writers, whole flush jobs and log Sync/GC running freely; every 4th
+//	                    operation imaged
+//	directed histories  minimal reproductions of the genuine findings (directed.go)
+//
+// Every image is recovered in another child process (engine load, WriteAheadLogManager.Recovery - which must rebuild the
+// local replicators -, replay until consumed = appended, flush) and checked against the ledger of the history:
 //
 //	(i)   consumer-group ack of the local replicator and the queue's truncation barrier <= sequence stored in the data
 //	      family's recovered version;
-//	(ii)  replay never writes an entry at or below the stored sequence; after replay + flush a `group by uid` query
-//	      over every metric returns every row of every entry whose WriteLog had returned exactly once, the rows of an
-//	      in-flight entry all or none, and nothing else (every row has its own time slot, so any value is attributable);
+//	(ii)  replay never writes an entry at or below the stored sequence; after replay + flush a `group by uid` query over
+//	      every metric returns every row of every entry whose WriteLog had returned exactly once, the rows of an
+//	      in-flight entry iff the recovered log holds it, and nothing else (every row has its own time slot, so any value
+//	      is attributable);
 //	(iii) the same through every field, every tag key (group by) and a tag filter: flushed data resolves by name;
-//	      a metric created after recovery returns only its own row.
+//	      an entry with brand-new names appended after recovery returns exactly its own row.
 //
-// Debug by hand: LOG_LEVEL=fatal TZ=UTC VERIF_SEED=n VERIF_C07_T0=<ms> bin/c07 hist <idx> <dir> quick, then
-// bin/c07 verify <dir>/ledger.json <from> <to> <out.json>.
+// Rows inside the window of the node flush protocol (see verifier.inHole) and rows whose names now carry an id of such
+// a row get the classes C07/flush-protocol-window/* (open finding); everything else is strict. An unexpected verdict is
+// checked by a second recovery of a pristine copy of the image and by repeating the query (2 of 3).
+//
+// By hand: LOG_LEVEL=fatal TZ=UTC VERIF_SEED=n VERIF_C07_T0=<ms> bin/c07 hist <idx> <dir> quick|thorough
+// (VERIF_C07_MODE=free for idx >= 1000; idx 2000/2001 = directed), then
+// [VERIF_C07_VERBOSE=1 VERIF_C07_KEEP=1] bin/c07 verify <dir>/ledger.json <from> <to> <out.jsonl>;
+// bin/c07 inspect <ledger.json> <node dir> ["sql"] prints what dictionaries and index resolve; bin/c07 plan <idx> <tier>.
 package main
 
 import (
@@ -345,6 +361,9 @@ func parent() {
 				continue
 			}
 			c.Eval(1)
+			if msg := r.Note["unrepeatable"]; msg != "" {
+				c.Set("example_of_identical_queries_with_different_answers", fmt.Sprintf("history %d image %d: %s", j.idx, r.Image, msg))
+			}
 			for k, v := range r.Counters {
 				if strings.HasPrefix(k, "violations.") {
 					continue
